@@ -65,3 +65,12 @@ Example C04_example :
   encode "UTCTime" 0x1010 [1000; 2024; 2; 29; 23; 59; 58; 7] = Some [16; 16; 12; 0; 0; 3; 232; 7; 232; 2; 29; 23; 59; 58; 7]%N /\
   decode "Scalar" 2 [1; 2; 3]%N = None.
 Proof. repeat split; vm_compute; reflexivity. Qed.
+
+(* through the emulator: MarshalMessage as REGENERATED from xsensemulator/emulator.go hands the value's encoder the
+   identifier of the last configured setting of the requested type, every component unchanged (or refuses when there is
+   none) - so an identifier travels configuration -> packet header through the functions above only *)
+Require Import Base.GoBytes Model.Emulator Gen.EmuFns Tie.EmuAgree.
+Theorem C04_emulator_passes_the_configured_identifier : forall md dt st, conf_ok st ->
+  g_Emulator_MarshalMessage md dt st = Val (marshal_result md (last_match dt (econf (absE st true))), st).
+Proof. intros md dt st H. exact (proj1 (emu_marshal_agrees md dt st true H)). Qed.
+Print Assumptions C04_emulator_passes_the_configured_identifier.
